@@ -65,10 +65,17 @@ def _defaults(out, label, fn):
 
 def _enc(v):
     if isinstance(v, (dict, list, set, frozenset, tuple)):
+        # a fingerprint is enough (only "did it change within this process" is asked); pickle is an order of magnitude
+        # cheaper than the canonical JSON form.  Sets pickle in iteration order, which is stable within one process.
         try:
-            return core.cjson(core.canon(v))
-        except Exception:  # noqa
-            return repr(v)[:400]
+            import hashlib
+            import pickle
+            return hashlib.sha1(pickle.dumps(v, protocol=4)).hexdigest()
+        except Exception:  # noqa   (unpicklable members: fall back to the canonical form / repr)
+            try:
+                return core.cjson(core.canon(v))
+            except Exception:  # noqa
+                return repr(v)[:400]
     return repr(v)[:200]
 
 
